@@ -600,7 +600,8 @@ Lemma container_split : forall f ts close v rest,
     ts = t0 :: tr0 ++ ts1 /\ closer (text t0) = Some close /\ Forall slot_ok tr0 /\ Forall G ts1 /\
     pv_loop f o wb close (String.eqb (text t0) "{") (S (List.length ts1)) ts1 [] [] false
       = POk (vals, pairs, sc, ts2) /\
-    advance wb ts2 = POk rest /\ v = container_value (text t0) vals pairs sc.
+    advance wb ts2 = POk rest /\ v = container_value (text t0) vals pairs sc /\
+    String.eqb (text t0) "{" && negb (keys_hashable pairs) = false.
 Proof.
   intros f ts close v rest Hc H HG.
   rewrite (parse_value_container f o wb ts close Hc) in H.
@@ -610,6 +611,7 @@ Proof.
   destruct (pv_loop f o wb close (String.eqb (text t0) "{") (S (List.length ts1)) ts1 [] [] false)
     as [[[[vals pairs] sc] ts2]|e] eqn:El; [|discriminate].
   destruct (advance wb ts2) as [ts3|e] eqn:Ea2; [|discriminate].
+  destruct (String.eqb (text t0) "{" && negb (keys_hashable pairs)) eqn:Hhash; [discriminate|].
   injection H as <- <-.
   exists t0, tr0, ts1, vals, pairs, sc, ts2. repeat split; assumption.
 Qed.
@@ -631,10 +633,10 @@ Lemma sound_container : forall f, SoundAt f -> forall ts close v rest,
 Proof.
   intros f HS ts close v rest Hc H HG n lay0 Hl0.
   destruct (container_split _ _ _ _ _ Hc H HG)
-    as [t0 [tr0 [ts1 [vals [pairs [sc [ts2 [E0 [Hc0 [Htr0 [HG1 [El [Ea2 Ev]]]]]]]]]]]]].
+    as [t0 [tr0 [ts1 [vals [pairs [sc [ts2 [E0 [Hc0 [Htr0 [HG1 [El [Ea2 [Ev Hhash]]]]]]]]]]]]]].
   destruct (open_punct _ _ Hc0) as [Hpo Hpc].
   pose proof (upd_good _ n _ Hl0 Htr0) as Hl0'.
-  destruct (closer_inv _ _ Hc0) as [[Eo ->]|[[Eo ->]|[Eo ->]]]; rewrite Eo in El, Ev, Hpo.
+  destruct (closer_inv _ _ Hc0) as [[Eo ->]|[[Eo ->]|[Eo ->]]]; rewrite Eo in El, Ev, Hpo, Hhash.
   - (* dict *)
     change (String.eqb "{" "{") with true in El.
     destruct (loop_ditems_inv f "}" HS _ _ _ _ _ _ _ _ _ El HG1 (S n) _ Hl0')
@@ -647,7 +649,10 @@ Proof.
     exists (LDict items trailing), (upd lay1 n1 tr1), (S n1),
            (op_tok "{" :: tr0 ++ body ++ op_tok "}" :: tr1), (t0 :: tr0 ++ used ++ c :: tr1).
     split; [apply lit_wf_LDict_intro; exact Hwf|].
-    split; [rewrite py_eval_LDict, Hevs, Ev, Epairs; reflexivity|].
+    assert (Hhk : keys_hashable kvs = true).
+    { rewrite Epairs in Hhash. cbn [app] in Hhash. change (String.eqb "{" "{") with true in Hhash.
+      cbn [andb] in Hhash. apply negb_false_iff in Hhash. exact Hhash. }
+    split; [rewrite py_eval_LDict, Hevs, Hhk, Ev, Epairs; reflexivity|].
     split; [rewrite E0, E1, E2; norm; reflexivity|].
     split; [rewrite render_LDict, (render_ditems_ext _ _ _ _ _ _ _ Hrb Hag1), Hn, Hn1; reflexivity|].
     split; [constructor; [exact (sim_punct _ _ Eo Hpo)|]; apply Forall2_app; [apply sim_refl|];
@@ -1141,6 +1146,7 @@ Fixpoint parse_value_orig (fuel : nat) (o : oracle) (wb : bool) (ts : list token
                   match advance wb ts2 with
                   | PErr e => PErr e
                   | POk ts3 =>
+                      if is_dict && negb (keys_hashable pairs) then PErr (EOther "TypeError") else
                       let v :=
                         if is_dict then build_dict pairs
                         else if is_tuple then
